@@ -62,6 +62,7 @@ func prop(t *rapid.T) {
 		t.Fatalf("bootstrap: %v", err)
 	}
 	rejected, built, probes, blocksAfterReject, burstBeforeDecision, phantoms := 0, 0, 0, 0, 0, 0
+	abandoned := 0
 	fail := func(format string, args ...interface{}) {
 		t.Fatalf("%s\ncfg clean=%s dirty=%s\n%v", fmt.Sprintf(format, args...), cfgClean.Name, cfgDirty.Name, scen.DescribeScenario(sc))
 	}
@@ -86,6 +87,34 @@ func prop(t *rapid.T) {
 		}
 		// dirty run with injected builds and rejected events
 		db := len(dirty.Blocks)
+		if rapid.IntRange(0, 3).Draw(t, "abandonedAttempt") == 0 {
+			// the dirty instance first built and processed a part of the epoch (every event built before it is
+			// processed, as an emitting node does, plus speculative builds), never sealing, and was then Reset to
+			// the same epoch: nothing of that attempt - not even what Build left in caches - may matter afterwards
+			seal := dirty.Seal
+			dirty.Seal = nil
+			part := rapid.IntRange(1, fedClean).Draw(t, "abandonedPrefix")
+			for i := 0; i < part; i++ {
+				e := ref.Evs[i]
+				me := ref.DagEvent(e, 0)
+				if err := dirty.L.Build(me); err != nil {
+					fail("abandoned attempt: Build(e%d) = %v", i, err)
+				}
+				if uint32(me.Frame()) != e.Hi {
+					fail("abandoned attempt: Build(e%d) assigned frame %d, highest allowed is %d", i, me.Frame(), e.Hi)
+				}
+				built++
+				if err := dirty.Process(ref.DagEvent(e, e.Frame)); err != nil {
+					fail("abandoned attempt: Process(e%d) = %v", i, err)
+				}
+			}
+			dirty.Seal = seal
+			if err := dirty.L.Reset(idx.Epoch(ref.Epoch), ref.Validators()); err != nil {
+				fail("Reset to the same epoch: %v", err)
+			}
+			dirty.Blocks = dirty.Blocks[:db]
+			abandoned++
+		}
 		rejectedThisEpoch := 0
 		probeAt := rapid.IntRange(0, fedClean-1).Draw(t, "probeAt")
 		for i := 0; i < fedClean; i++ {
@@ -205,6 +234,9 @@ func prop(t *rapid.T) {
 	classes := []string{"cfg_dirty_" + cfgDirty.Name}
 	if sameIDRejections > 0 {
 		classes = append(classes, "rejected_copy_with_the_id_of_the_later_valid_event")
+	}
+	if abandoned > 0 {
+		classes = append(classes, "epoch_first_built_and_processed_then_reset")
 	}
 	if burstBeforeDecision > 0 {
 		classes = append(classes, "burst_right_before_deciding_event")
